@@ -296,6 +296,51 @@ def opsC13 : List (String × Handler) := [
           return o ++ " " ++ fmt ((List.ofFn idx.fn).map (fun i => BigF.ofNat i) ++ flatV w.fn)
         else throw "no-particles"
       | _ => throw "arity"),
+  -- c13.call <ekf|ukf> n m p  fq fr gq gr hk  kk  t <family> u y [Qstored] [Rstored] [Qpassed] [Rpassed] x P   -> x' P'
+  -- one call on a filter OBJECT: fq/fr = the object stores Q/R, gq/gr = the call passes Q/R, hk = the call passes k
+  -- (hk = 0: `None`, the model's `resolveK` supplies 3 − n). The resolution glue runs in the model (`ekfCall`/`ukfCall`).
+  ("c13.call", fun ts => do
+      match ts with
+      | kind :: n :: m :: p :: fq :: fr :: gq :: gr :: hk :: kk :: rest =>
+        let n ← nat n; let m ← nat m; let p ← nat p
+        let fq ← nat fq; let fr ← nat fr; let gq ← nat gq; let gr ← nat gr; let hk ← nat hk
+        let kk ← num kk
+        let (sys, u, y, stQ, stR, pQ, pR, pr) ← runRd rest (do
+          let t ← rdS
+          let fm ← rdFam n m p
+          let u ← rdV m; let y ← rdV p
+          let stQ ← if fq == 1 then (do let q ← rdM n n; pure (some q)) else pure none
+          let stR ← if fr == 1 then (do let q ← rdM p p; pure (some q)) else pure none
+          let pQ ← if gq == 1 then (do let q ← rdM n n; pure (some q)) else pure none
+          let pR ← if gr == 1 then (do let q ← rdM p p; pure (some q)) else pure none
+          let x ← rdV n; let P ← rdM n n
+          return (fm.sys t, u, y, stQ, stR, pQ, pR, (⟨x, P⟩ : Post F n)))
+        let c : Call F n m p := ⟨sys, u, y, pQ, pR, if hk == 1 then some kk else none⟩
+        match c.toStep stQ stR with
+        | none => throw "no-covariance"
+        | some s =>
+          if kind == "ekf" then
+            let why := ekfWhy s pr
+            if why ≠ "ok" then throw why
+            match ekfCall pinvK stQ stR c.sys c.u c.y c.pQ c.pR pr with
+            | some po => outPost po
+            | none => throw "no-covariance"
+          else
+            let kv := resolveK n c.kk
+            let why := ukfWhy kv s pr
+            if why ≠ "ok" then throw why
+            match ukfCall pinvK cholK kv stQ stR c.sys c.u c.y c.pQ c.pR pr with
+            | some po => outPost po
+            | none => throw "no-covariance"
+      | _ => throw "arity"),
+  -- c13.witness -> x P : the model's UKF on the necessity witness (f = x, g = x² + x, k = −1/2, P = 1/2, Q = 3/2, R = 1)
+  ("c13.witness", fun _ => do
+      let half : F := BigF.div BigF.one (BigF.ofNat 2)
+      let sys : Sys F 1 1 1 := ⟨fun x _ => x, fun x _ => fun _ => x ⟨0, by omega⟩ * x ⟨0, by omega⟩ + x ⟨0, by omega⟩,
+        fun _ _ => fun _ _ => BigF.one, fun x _ => fun _ _ => BigF.ofNat 2 * x ⟨0, by omega⟩ + BigF.one⟩
+      let s : Step F 1 1 1 := ⟨sys, fun _ => BigF.zero, fun _ => BigF.zero, fun _ _ => BigF.div (BigF.ofNat 3) (BigF.ofNat 2),
+        fun _ _ => BigF.one⟩
+      outPost (ukf pinvK cholK (BigF.neg half) s ⟨fun _ => BigF.zero, fun _ _ => half⟩)),
   -- c13.weights n kk -> w0 wr
   ("c13.weights", fun ts => do
       match ts with
